@@ -125,12 +125,20 @@ where
         let start_time = Instant::now();
         #[cfg(feature = "verif")]
         let start_time = crate::verif::VirtualInstant::now();
+        let mut sampling_failed = false;
         loop {
             if start_time.elapsed().as_secs_f64() > self.timeout {
                 break;
             }
 
-            let q_rand = pd.space.sample_uniform(&mut *rng).unwrap();
+            // A sampler that cannot deliver a state ends the construction with an error.
+            let q_rand = match pd.space.sample_uniform(&mut *rng) {
+                Ok(state) => state,
+                Err(_) => {
+                    sampling_failed = true;
+                    break;
+                }
+            };
             if vc.is_valid(&q_rand) {
                 let mut new_node = Node {
                     state: q_rand.clone(),
@@ -158,6 +166,9 @@ where
         }
         // Hand the generator back: a later construction continues the seeded stream.
         self.rng = Some(rng);
+        if sampling_failed {
+            return Err(PlanningError::NoSolutionFound);
+        }
         println!(
             "PRM: Roadmap constructed with {} milestones.",
             self.roadmap.len()
